@@ -129,6 +129,51 @@ def call_consumed(finfo, node, call):
 
 
 # -- reachability under an assumption on guard atoms -----------------------
+_NEVER_NONE_CALLS = ('dict', 'list', 'set', 'tuple', 'str', 'int', 'float', 'bool', 'sorted',
+                     'len', 'range', 'frozenset', 'bytes')
+_NEVER_NONE_METHODS = ('items', 'keys', 'values', 'copy', 'split', 'rsplit', 'strip', 'lower',
+                       'upper', 'sections', 'format', 'join', 'encode', 'decode', 'splitlines')
+
+
+def _never_none(v):
+    if isinstance(v, ast.Constant):
+        return v.value is not None
+    if isinstance(v, (ast.Dict, ast.List, ast.Set, ast.Tuple, ast.ListComp, ast.DictComp,
+                      ast.SetComp, ast.JoinedStr, ast.Lambda)):
+        return True
+    if isinstance(v, ast.Call):
+        if isinstance(v.func, ast.Name) and v.func.id in _NEVER_NONE_CALLS:
+            return True
+        if isinstance(v.func, ast.Attribute) and v.func.attr in _NEVER_NONE_METHODS:
+            return True
+    return False
+
+
+def _none_test_of_value(cfg, tnode, e):
+    """`x is None` / `x is not None` for a local all of whose definitions reaching the
+    test are plain assignments of values that are never None (a display, dict(..),
+    something.items() ...): the test is decided."""
+    if not (isinstance(e, ast.Compare) and len(e.ops) == 1 and
+            isinstance(e.ops[0], (ast.Is, ast.IsNot)) and isinstance(e.left, ast.Name) and
+            isinstance(e.comparators[0], ast.Constant) and e.comparators[0].value is None):
+        return None
+    if getattr(cfg, 'func', None) is None:
+        return None
+    rd = getattr(cfg, '_rd_cache', None)
+    if rd is None:
+        from .dataflow import ReachingDefs
+        try:
+            rd = ReachingDefs(cfg, cfg.func)
+        except Exception:
+            return None
+        cfg._rd_cache = rd
+    defs = rd.reaching(tnode, e.left.id)
+    if defs and all(d.kind == 'assign' and d.value is not None and _never_none(d.value)
+                    for d in defs):
+        return isinstance(e.ops[0], ast.IsNot)
+    return None
+
+
 def infeasible_edges(cfg, assume):
     """assume(atom_expr) -> True / False / None (unknown).  For every test
     node, the outcomes (true/false edge) that cannot occur when the assumed
@@ -151,6 +196,8 @@ def infeasible_edges(cfg, assume):
                     from .normalize import bool_ctx
                     e2 = bool_ctx(copy.deepcopy(e2))
                     v = assume(e2)
+            if v is None:
+                v = _none_test_of_value(cfg, t, e)
             if v is None:
                 from .cfg import static_truth, POSIX_CONSTS
                 if not isinstance(e, ast.Constant):
